@@ -14,5 +14,6 @@ CONSTANTS
   RandMaxK = 8
   RandAllK = 4
   RawCount = 1500
+  OptCount = 600
 INIT GenInit
 NEXT GenNext
